@@ -740,6 +740,8 @@ class FDE:
     def _truth(self, v):
         if isinstance(v, Opaque):
             raise Unsupported('truth of opaque value %r' % v)
+        if isinstance(v, Obj) and isinstance(v.f.get('_children'), dict) and v.cls in self.repo.classes and ({'dict', 'list'} & set(self.repo.mro(v.cls))):
+            return bool(v.f['_children'])      # a container node with a concrete child map: non-empty <=> true (dict / list truth)
         if isinstance(v, Obj):
             raise Unsupported('truth of node object %r' % v)
         return bool(v)
@@ -1420,6 +1422,8 @@ class FDE:
                 return Opaque('enumerate(%s)' % args[0].name)
             if n in ('bool', 'len', 'any', 'all', 'list', 'tuple'):
                 if n == 'bool':
+                    if isinstance(args[0], Obj) and isinstance(args[0].f.get('_children'), dict) and args[0].cls in self.repo.classes and ({'dict', 'list'} & set(self.repo.mro(args[0].cls))):
+                        return bool(args[0].f['_children'])
                     if isinstance(args[0], Obj):
                         return Opaque('bool(%s)' % args[0].name)
                     return self._truth(args[0])
@@ -1599,6 +1603,8 @@ class FDE:
             t = target[1]
             if t.name not in self.stubs and t.qualname not in self.stubs:
                 return self._invoke(t, args, kwargs)
+            if t.is_classmethod and args and isinstance(args[0], tuple) and len(args[0]) == 2 and args[0][0] == 'class':
+                args = list(args[1:])       # a stand-in for a class method sees the call's own arguments (not the class)
             self.effects.append(('call', t.name, None, tuple(args), tuple(sorted(kwargs.items(), key=lambda kv: kv[0]))))
             return self.stub(t.name, None, args, kwargs) if self.stub is not None else None
         if isinstance(target, Bound) and (target.fi is not None or target.name in self.stubs):
